@@ -4,11 +4,14 @@ import (
 	"bytes"
 	"encoding/binary"
 	"fmt"
+	"io"
 	"net"
 	"net/http/httptest"
 	"os"
 	"path/filepath"
 	"strings"
+	"time"
+	"verif/shim/vclock"
 
 	"github.com/bolkedebruin/rdpgw/cmd/rdpgw/kdcproxy"
 
@@ -51,21 +54,48 @@ func kdcProxyFor(n int) kdcproxy.KerberosProxy {
 
 // KdcScenario is one request against scripted KDCs.
 type KdcScenario struct {
-	NKdc     int
-	Realm    string // absent | default | second | unknown
-	Size     int    // Kerberos payload size (without the 4-byte prefix)
+	NKdc  int
+	Realm string // absent | default | second | unknown
+	Size  int    // Kerberos payload size (without the 4-byte prefix)
 	// ReplySize > 0: the KDC's reply has that many bytes (a datagram over UDP; after the 4-byte prefix over TCP)
 	ReplySize int
-	UDP      []string
-	TCP      []string
-	Name     string
-	RawBody  []byte // malformed-request scenarios
-	Method   string
-	NoLength bool
-	Declared int64 // declared content length (-2: actual)
+	UDP       []string
+	TCP       []string
+	Name      string
+	RawBody   []byte // malformed-request scenarios
+	Method    string
+	NoLength  bool
+	Declared  int64 // declared content length (-2: actual)
 	// FirstRealm != "": an earlier well-formed request with that realm form is served in the same execution
 	// before the observed one (every KDC refuses it): the observed request starts from a non-initial state
 	FirstRealm string
+	// SlowBody > 0: the request body arrives in two parts, the harness clock moves on by that much in between
+	// (a slow client link); the time the upload takes is not the KDCs' time
+	SlowBody time.Duration
+}
+
+// slowBody hands out the first half of the body, moves the harness clock, then hands out the rest.
+type slowBody struct {
+	data  []byte
+	off   int
+	pause time.Duration
+	done  bool
+}
+
+func (b *slowBody) Read(p []byte) (int, error) {
+	if b.off >= len(b.data) {
+		return 0, io.EOF
+	}
+	end := len(b.data)
+	if !b.done && b.off == 0 && len(b.data) > 1 {
+		end = len(b.data) / 2
+	} else if !b.done {
+		b.done = true
+		vclock.Advance(b.pause)
+	}
+	n := copy(p, b.data[b.off:end])
+	b.off += n
+	return n, nil
 }
 
 type kdcConn struct {
@@ -144,6 +174,10 @@ func kdcBody(msg []byte, realm string) []byte {
 
 func RunKdc(sc KdcScenario, prefix []int, logOn bool) *KdcResult {
 	res := &KdcResult{}
+	if sc.SlowBody > 0 {
+		vclock.Reset()
+		defer vclock.Reset()
+	}
 	proxy := kdcProxyFor(sc.NKdc)
 	body := sc.RawBody
 	if body == nil {
@@ -178,6 +212,7 @@ func RunKdc(sc KdcScenario, prefix []int, logOn bool) *KdcResult {
 				return nil, nil
 			}
 			gwEnd, kdcEnd := vnet.NewPipe(fmt.Sprintf("gw>kdc%d", idx), fmt.Sprintf("kdc%d", idx), network != "udp")
+			gwEnd.ClockDeadlines = true // kdcproxy takes its time from the harness clock
 			if network == "udp" {
 				gwEnd.NoEOF, kdcEnd.NoEOF = true, true
 				gwEnd.MaxDatagram, kdcEnd.MaxDatagram = 65507, 65507
@@ -203,6 +238,10 @@ func RunKdc(sc KdcScenario, prefix []int, logOn bool) *KdcResult {
 			method = "POST"
 		}
 		r := httptest.NewRequest(method, "http://gw.example/KdcProxy", bytes.NewReader(body))
+		if sc.SlowBody > 0 {
+			r = httptest.NewRequest(method, "http://gw.example/KdcProxy", &slowBody{data: body, pause: sc.SlowBody})
+			r.ContentLength = int64(len(body))
+		}
 		if sc.NoLength {
 			r.ContentLength = -1
 		} else if sc.Declared != 0 {
@@ -325,6 +364,23 @@ func kdcCheck(sc KdcScenario, res *KdcResult) (outcome string, v []vsched.Violat
 	if configured && sc.RawBody == nil && sc.Size >= 100 && sc.Size <= 65535 && (sc.Method == "" || sc.Method == "POST") && !sc.NoLength && sc.Declared == 0 && len(res.Dials) == 0 {
 		add("well-formed-request-not-relayed/"+sc.Realm, fmt.Sprintf("realm %s, %d-byte message: status %d and no KDC was contacted", sc.Realm, sc.Size, res.Code))
 	}
+	// ... and contacting means sending: when a connection that can carry the message was established, some KDC
+	// connection has received bytes (a gateway that opens connections and sends nothing has not relayed)
+	if configured && sc.RawBody == nil && sc.Size >= 100 && sc.Size <= 65535 && (sc.Method == "" || sc.Method == "POST") && !sc.NoLength && sc.Declared == 0 {
+		established, received := 0, 0
+		for _, c := range res.Conns {
+			if c.Behaviour != "refuse" && c.Behaviour != "close" && (c.Proto == "tcp" || sc.Size+4 <= 65507) {
+				established++
+			}
+			received += len(c.Got)
+			if c.pc != nil {
+				received += len(c.pc.Written)
+			}
+		}
+		if established > 0 && received == 0 {
+			add("well-formed-request-not-relayed/nothing-sent/"+sc.Realm, fmt.Sprintf("realm %s, %d-byte message: status %d; %d KDC connections that stay open were established and the gateway wrote nothing to any", sc.Realm, sc.Size, res.Code, established))
+		}
+	}
 	// the dial plan tells which behaviours were actually reached
 	wantRealmHosts := map[string]bool{}
 	switch sc.Realm {
@@ -429,6 +485,15 @@ func c20Scenarios(thorough bool) []KdcScenario {
 		s.Name = fmt.Sprintf("kdcs=1/realm=default/size=100/udp=silent/tcp=reply-close/reply-size=%d", rs)
 		out = append(out, s)
 	}
+	// a client whose upload takes longer than the KDC time-out (body in two parts, 6 s / 30 s / 3 min apart on the
+	// gateway's clock): the request is relayed and answered like any other
+	for _, pause := range []time.Duration{6 * time.Second, 30 * time.Second, 3 * time.Minute} {
+		for _, tr := range [][2]string{{"reply", "silent"}, {"silent", "reply-close"}, {"refuse", "reply-two-writes"}} {
+			s := KdcScenario{NKdc: 1, Realm: "default", Size: 1500, UDP: []string{tr[0]}, TCP: []string{tr[1]}, SlowBody: pause}
+			s.Name = fmt.Sprintf("kdcs=1/realm=default/size=1500/udp=%s/tcp=%s/upload-takes-%s", tr[0], tr[1], pause)
+			out = append(out, s)
+		}
+	}
 	// 2 and 3 KDCs: all behaviour combinations, default realm, one size
 	for _, n := range []int{2, 3} {
 		var rec func(i int, u, t []string)
@@ -455,7 +520,7 @@ func c20Scenarios(thorough bool) []KdcScenario {
 
 func c20(env *Env, rep *Report) {
 	scs := c20Scenarios(env.thorough())
-	rep.Rule = fmt.Sprintf("%d request scenarios against the real kdcproxy handler with scripted KDC connections: 1 KDC: realms {default, absent, second, unknown; for two sizes also a child realm with its own KDC, an unconfigured realm below a [domain_realm] suffix of the parent realm, and requests whose optional elements are present with zero / large values (dclocator-hint 0, empty target-domain, hint 0x40000000)} x Kerberos payload sizes {0,1,3,4,5,100,1500,65535,128KiB-32} x UDP behaviour {reply, silent, refuse} x TCP behaviour {reply then close, reply and keep open, reply in two writes, half a reply then close, close at once, silent, refuse}; 2 and 3 KDCs: every combination of those behaviours (quick: 3 KDCs without two-writes/close-at-once); KDC replies of 1465 / 4096 / 4097 / 9000 / 60000 / 65507 bytes over UDP and 4097 / 65536 / 100000 bytes over TCP. "+
+	rep.Rule = fmt.Sprintf("%d request scenarios against the real kdcproxy handler with scripted KDC connections: 1 KDC: realms {default, absent, second, unknown; for two sizes also a child realm with its own KDC, an unconfigured realm below a [domain_realm] suffix of the parent realm, and requests whose optional elements are present with zero / large values (dclocator-hint 0, empty target-domain, hint 0x40000000)} x Kerberos payload sizes {0,1,3,4,5,100,1500,65535,128KiB-32} x UDP behaviour {reply, silent, refuse} x TCP behaviour {reply then close, reply and keep open, reply in two writes, half a reply then close, close at once, silent, refuse}; 2 and 3 KDCs: every combination of those behaviours (quick: 3 KDCs without two-writes/close-at-once); request bodies that arrive in two parts 6 s / 30 s / 3 min apart on the gateway's clock (deadlines set in the past of that clock expire at once); KDC replies of 1465 / 4096 / 4097 / 9000 / 60000 / 65507 bytes over UDP and 4097 / 65536 / 100000 bytes over TCP. "+
 		"Each runs under the default schedule with deadlines firing at quiescence; selected scenarios additionally under every schedule of handler, reply readers and KDC threads up to the preemption bound. Oracle: KDCs of the right realm receive exactly the embedded message (TCP with, UDP without the 4-byte prefix); if any connection delivers a complete reply the response is 200 and its kerb-message is exactly one KDC's reply (length-prefixed); otherwise an error status; always an HTTP response and no goroutine left. Histories: 32 ordered pairs of requests in one process (first: each realm form, answered or not; second: each realm form), the second judged like a first request. Two requests at the same time (same realm, two realms, parent and child realm; KDCs that reply, stay silent, refuse, reply half) under every schedule up to the deviation bound: each is answered as if alone, by the reply of a connection that received its own message, without waiting for the other's deadline, and every KDC connection is closed. Requests that are to be rejected (the bodies of C10 (d): other methods, no length, over 128 KiB, truncated / trailing / wrong tags / lying lengths) get 405 / 411 / 413 / 400 and nothing is sent to a KDC. Binding: the real rdpgw binary with a kerberos configuration and scripted KDCs on loopback TCP/UDP sockets (realms whose KDC replies over TCP, over UDP, stays silent, refuses TCP, truncates its reply; unknown realm; other methods; malformed bodies): every request gets an HTTP response with the status and bytes above. distinct_nontrivial = distinct scenarios.", len(scs))
 	rep.Assumptions = append(rep.Assumptions,
 		"a UDP write of more than 65507 bytes fails with EMSGSIZE, as on a real socket",
